@@ -291,7 +291,32 @@ func c13Chart(c *Ctx, gd *Module) {
 	r.Check("C13.every-report-counted", "handleChart/visits every day of [start, end]", gd.Pos(read.Pos()), okLoop, "for date := start; !date.After(end); date = date.AddDate(0, 0, 1)")
 	// the file read is <date>.json
 	fd := describeArg(read, 1)
-	r.Check("C13.every-report-counted", "handleChart/reads <date>.json", gd.Pos(read.Pos()), strings.HasPrefix(fd, "((time.Time).Format(phi:") && strings.HasSuffix(fd, `"2006-01-02") + ".json")`), "got "+fd)
+	okName := strings.HasPrefix(fd, "((time.Time).Format(phi:") && strings.HasSuffix(fd, `"2006-01-02") + ".json")`)
+	if cl, isCall := strip(argsOf(read)[1]).(*ssa.Call); isCall && !okName && calleeName(&cl.Call) == "godev/cmd/worker.fileName" {
+		// fileName(date, date): the name helper of the merged files, asked for a one-day range.
+		// Its exit for start.Equal(end) — the one taken when both operands are the same value —
+		// must build <start>.json
+		a := cl.Call.Args
+		if len(a) == 2 && a[0] == a[1] && strings.HasPrefix(describe(a[0]), "phi:") {
+			fnm := gd.Func("cmd/worker", "fileName")
+			for _, ex := range exitPaths(fnm) {
+				isEq := hasFact(ex.facts, callResultIs("(time.Time).Equal", true, func(args []ssa.Value, eqc *ssa.Call) bool {
+					args = eqc.Call.Args // receiver and operand
+					set := map[ssa.Value]bool{}
+					for _, a := range args {
+						set[strip(a)] = true
+					}
+					return set[fnm.Params[0]] && set[fnm.Params[1]]
+				}))
+				if isEq {
+					d := describe(ex.vals[0])
+					okName = d == `((time.Time).Format(param:start, "2006-01-02") + ".json")` || d == `((time.Time).Format(param:end, "2006-01-02") + ".json")`
+					fd += " = " + d
+				}
+			}
+		}
+	}
+	r.Check("C13.every-report-counted", "handleChart/reads <date>.json", gd.Pos(read.Pos()), okName, "got "+fd)
 	// errors returned unchanged
 	for _, b := range h.Blocks {
 		ret, ok := b.Instrs[len(b.Instrs)-1].(*ssa.Return)
@@ -610,6 +635,17 @@ func c13Determinism(c *Ctx, gd *Module) {
 				n++
 			}
 		}
+		// … or it is the library's three-way string comparison of its two parameters
+		for _, cs := range callsIn(lex, "strings.Compare", "cmp.Compare[string]") {
+			a := cs.Common().Args
+			if len(a) == 2 && a[0] == ssa.Value(lex.Params[0]) && a[1] == ssa.Value(lex.Params[1]) {
+				for _, u := range referrers(cs.(*ssa.Call)) {
+					if _, isRet := u.(*ssa.Return); isRet {
+						n = 2
+					}
+				}
+			}
+		}
 		r.Check("C13.determinism", "compareLexically/orders by the strings themselves", gd.Pos(lex.Pos()), n >= 2, "two of x < y, x > y, x == y decide among -1, 0, +1; 0 only when equal")
 	}
 }
@@ -700,9 +736,20 @@ func cToolchainPred(c *Ctx, m *Module, rule string) {
 		n++
 		v := strip(refine(ex.vals[0], ex.facts))
 		ok := false
-		if cl, isCall := v.(*ssa.Call); isCall && calleeName(&cl.Call) == "strings.HasPrefix" {
-			k, isC := constOf(argsOf(cl)[1])
-			ok = isC && k == "cmd/" && argsOf(cl)[0] == ssa.Value(f.Params[0])
+		if kind, sv, pv, isT := affixTest(v); isT && kind == "HasPrefix" {
+			k, isC := constOf(pv)
+			ok = isC && k == "cmd/" && strip(sv) == ssa.Value(f.Params[0])
+		}
+		if k, isC := constOf(v); isC && k == "false" {
+			// the short-circuit exit of the hand-written form: the path is shorter than the prefix
+			ok = hasFact(ex.facts, func(fc Fact) bool {
+				bo, isB := fc.Cond.(*ssa.BinOp)
+				if !isB {
+					return false
+				}
+				d := describe(bo)
+				return strings.Contains(d, "builtin:len(param:progPath)") && strings.Contains(d, " 4")
+			})
 		}
 		r.Check(rule, fmt.Sprintf("IsToolchainProgram/result #%d is HasPrefix(path, \"cmd/\")", n), m.Pos(ex.ret.Pos()), ok, "got "+shortDesc(describe(v)))
 	}
